@@ -9,11 +9,13 @@
 EXTENDS Valset, Json
 CONSTANTS Family, EmitAt, MaxOps, StakeVecs, Amounts, DTs, Jumps, GenVersions, MaxHeight, FocusVals
 VARIABLES hist,
-          mark      \* swap family: some validator unjailed while ANOTHER one had been jailed in the same or the previous block
+          mark      \* swap family: some validator unjailed while ANOTHER one had been jailed in the same or the previous block;
+                    \* version family: a validator with an accepted keep-alive re-sent the SAME version after the minimum was raised above it
 
 RealSentences == <<60, 300, 900, 3600, 86400>>
 Vecs4 == {<<1, 1, 1, 1>>, <<7, 1, 1, 1>>, <<1, 2, 3, 7>>, <<3, 3, 2, 1>>, <<2, 2, 1, 1>>}
 Vecs4Cover == {<<1, 1, 1, 1>>, <<1, 2, 3, 7>>}
+VecsOne == {<<1, 1, 1, 1>>}
 VecsProj == {<<1, 1, 1, 1>>, <<3, 1, 1, 1>>}
 \* share of bonded power of validator 1 (4 bonded of 5): exactly 25%, 24.5%, 25.49% (26 of 102), 26.47% (27 of 102)
 Vecs5Share == {<<25, 25, 25, 25, 1>>, <<25, 26, 25, 26, 1>>, <<26, 25, 25, 26, 1>>, <<27, 25, 25, 25, 1>>}
@@ -25,18 +27,26 @@ JumpsCover == {<<9, 2>>, <<50, 2>>, <<2000, 2>>}     \* 1 + 9 = 10: a keep-alive
 JumpsSim == {<<1, 2>>, <<9, 2>>, <<10, 2>>, <<29, 2>>, <<31, 2>>, <<60, 2>>, <<1990, 2>>, <<2000, 2>>, <<1, 600>>, <<1, 4000>>, <<1, 90000>>, <<30, 60>>}
 \* swap family: one validator is jailed (liveness check or message) and ANOTHER one unjails in the same / the next block
 JumpsSwap == {<<1, 2>>, <<9, 2>>, <<40, 2>>, <<99, 2>>}
+JumpsVer == {<<1, 2>>, <<9, 2>>, <<120, 2>>, <<2000, 2>>}
 JumpsLadder == {<<1, 70>>, <<1, 310>>, <<1, 910>>, <<1, 3650>>, <<1, 90000>>, <<31, 2>>}
 
 JustJailed(x) == jailed[x] /\ jhist[x] # <<>> /\ now - jhist[x][Len(jhist[x])].at <= 2
 H(a, r) == /\ hist' = Append(hist, [act |-> a, args |-> r])
-           /\ mark' = (mark \/ (a = "Unjail" /\ last'.ok /\ \E x \in Vals \ {r.v} : JustJailed(x)))
+           /\ mark' = (\/ mark
+                       \/ (a = "Unjail" /\ last'.ok /\ \E x \in Vals \ {r.v} : JustJailed(x))
+                       \/ (a = "KeepAlive" /\ ~last'.ok /\ aliveUntil[r.v] > 0 /\ r.ver > 0
+                           /\ \E i \in DOMAIN hist : hist[i].act = "KeepAlive" /\ hist[i].args.v = r.v /\ hist[i].args.ver = r.ver))
 RECURSIVE SetToSeq(_)
 SetToSeq(T) == IF T = {} THEN <<>> ELSE LET x == MinOf(T) IN <<x>> \o SetToSeq(T \ {x})
 
 GBuild == Build({}) /\ H("Build", [x |-> 0])
 GSetOnChain == \E id \in 1..(lastId + 1), c \in Chains : SetOnChain(id, c) /\ H("SetOnChain", [id |-> id, c |-> c])
+GSetOnChainCur == \E c \in Chains : SetOnChain(lastId, c) /\ H("SetOnChain", [id |-> lastId, c |-> c])
 GPublish == \E f \in BOOLEAN : Publish(f, {}) /\ H("Publish", [force |-> f])
 GRegister == \E v \in FocusVals, S \in SUBSET Chains : S # accts[v] /\ Register(v, S) /\ H("Register", [v |-> v, cs |-> SetToSeq(S)])
+GRotate == \E v \in FocusVals, m \in {"key", "trait"} : gen[v] < 2 /\ Rotate(v) /\ H("Rotate", [v |-> v, mode |-> m])
+GSetBalance == \E v \in FocusVals, c \in Chains : SetBalance(v, c) /\ H("SetBalance", [v |-> v, c |-> c, bal |-> 5 + v + c])
+GRegisterNone == \E v \in FocusVals : accts[v] # {} /\ Register(v, {}) /\ H("Register", [v |-> v, cs |-> <<>>])
 GActivate == \E c \in Chains : c \notin active /\ Activate(c) /\ H("Activate", [c |-> c])
 GDelegate == \/ \E v \in FocusVals, a \in Amounts : Delegate(v, a) /\ H("Delegate", [v |-> v, a |-> a])
              \/ \E v \in FocusVals, a \in Amounts : Undelegate(v, a) /\ H("Undelegate", [v |-> v, a |-> a])
@@ -55,26 +65,40 @@ GSetMin == \E ver \in GenVersions \ {0}, d \in {0, 5, 100} :
 
 GNext ==
   CASE Family = "snap"   -> GBuild \/ GSetOnChain \/ GPublish \/ GRegister \/ GActivate \/ GDelegate \/ GJailF \/ GUnjail \/ GStakingEB
+                            \/ GRotate \/ GSetBalance
+    \* touch family: the account records change AFTER snapshots were built (balance report, rotated key, traits)
+    [] Family = "touch"  -> GBuild \/ GSetOnChainCur \/ GRotate \/ GSetBalance \/ GActivate \/ GPublish
+    \* shrink family: builds that store a snapshot with fewer / no validators (chain nobody is registered on, everybody jailed)
+    [] Family = "shrink" -> GBuild \/ GActivate \/ GJailF \/ GRegisterNone \/ GStakingEB \/ GPublish
     [] Family = "proj"   -> GBuild \/ GSetOnChain \/ GPublish \/ GRegister \/ GActivate \/ GStakingEB
     [] Family = "alive"  -> GBlocks \/ GKeepAlive \/ GJail \/ GUnjail \/ GSetMin
     [] Family = "ladder" -> GBlocks \/ GJailL \/ GUnjailL
     [] Family = "swap"   -> GBlocks \/ GJailL \/ GUnjailL
+    [] Family = "version" -> GBlocks \/ GKeepAlive \/ GSetMin
     [] OTHER -> FALSE
 
 AllAccts == [v \in Vals |-> Chains]
-GInit == \E stk \in StakeVecs :
-           /\ InitWith(stk, AllAccts, {}, InitStatus(stk))
+SnapFamilies == {"snap", "proj", "touch", "shrink"}
+\* registration profiles of the world: everybody on every chain / everybody on the first chain only
+RegProfiles == IF Family = "shrink" THEN {"all", "first"} ELSE {"all"}
+RegOf(p) == IF p = "all" THEN AllAccts ELSE [v \in Vals |-> {MinOf(Chains)}]
+GInit == \E stk \in StakeVecs, p \in RegProfiles :
+           /\ InitWith(stk, RegOf(p), {}, InitStatus(stk))
            /\ mark = FALSE
-           /\ hist = <<[act |-> IF Family \in {"snap", "proj"} THEN "InitS" ELSE "InitK", args |-> [stakes |-> stk]]>>
+           /\ hist = <<[act |-> IF Family \in SnapFamilies THEN "InitS" ELSE "InitK",
+                        args |-> IF Family \in SnapFamilies THEN [stakes |-> stk, reg |-> p] ELSE [stakes |-> stk]]>>
 Last == hist[Len(hist)]
 GView == <<Last, mark, stakingVars, snapVars, aliveVars, now>>
 GConstr == Len(hist) <= MaxOps + 1
 EmitCond == /\ Len(hist) >= 4
             /\ \/ Family = "snap" /\ last.act \in {"Build", "Publish", "SetOnChain"}
+               \/ Family = "touch" /\ last.act \in {"Rotate", "SetBalance", "Build"} /\ lastId >= 2
+               \/ Family = "shrink" /\ last.act \in {"Build", "Publish"} /\ lastId >= 2 /\ Cardinality(snaps[lastId].vals) <= 1
                \/ Family = "proj" /\ last.act \in {"Build", "Publish"}
                \/ Family = "swap" /\ mark /\ last.act = "Blocks" /\ Last.args.n >= 40
-               \/ Family \notin {"snap", "proj", "swap"} /\ last.act \in {"Blocks"}
+               \/ Family = "version" /\ mark /\ last.act = "Blocks"
+               \/ Family \notin (SnapFamilies \cup {"swap", "version"}) /\ last.act \in {"Blocks"}
 GNextC == (IF EmitCond THEN PrintT(<<"HIST", ToJson(hist)>>) ELSE TRUE) /\ GNext
 \* simulate mode: emit histories of full length; keep-alive histories must end with time passing
-Emit == (Len(hist) = EmitAt + 1 /\ (Family \in {"snap", "proj"} \/ last.act = "Blocks")) => PrintT(<<"HIST", ToJson(hist)>>)
+Emit == (Len(hist) = EmitAt + 1 /\ (Family \in SnapFamilies \/ last.act = "Blocks")) => PrintT(<<"HIST", ToJson(hist)>>)
 =============================================================================
